@@ -14,6 +14,7 @@ EXPLANATION = (
     "successful send, by the count that send returned, and the loop runs while data remains; ERRNO_RETRIES contains only the "
     "retryable errno family; the library's own errors are not OSErrors; SocketConnection.recv/send delegate exactly."
     'Also decided: every ConnectionClosedError of receive_data carries partialData; the buffer is created once; a short MSG_WAITALL read is handed over to the manual loop and not repeated; no fall-through; sendall is not retried; errno is read without indexing args; only ConnectionClosedError handlers read partialData. '
+    'Also decided (round 7): The read that passes recv flags is guarded by a test of the socket it reads from. '
     "Not decided: exact bytes/order under scripts of partial reads, timing, MSG_WAITALL semantics."
 )
 
